@@ -228,3 +228,18 @@ def c04_walks(ncases):
                 ops.append(dict(op="Verify", c=0, tok=tok))
             yield ops
     return gen
+
+
+def replicate(reps):
+    """Concretise every abstract cell `reps` times: same operations, a different
+    'rep' tag (the driver derives its random positions from the case id)."""
+    def expand(scripts, seed):
+        import copy
+        for s in scripts:
+            for r in range(reps):
+                c = copy.deepcopy(s)
+                for op in c:
+                    if op.get("op") == "Verify" and isinstance(op.get("tok"), dict):
+                        op["tok"]["rep"] = r
+                yield c
+    return expand
